@@ -1,8 +1,56 @@
-import Oracle.Util
-/-! Oracle handlers for C16 (model functions exposed on the line protocol). -/
+import Oracle.AccessUtil
+import MobiusModel.AccessYaml
+import MobiusModel.Generated.AccessYaml
+import MobiusModel.Generated.Consts
+/-! Oracle handlers for C16: save / load of the access bitmap over the regenerated tables, the
+    documented names, the legacy array. -/
 namespace Oracle
-open Mobius
+open Mobius Mobius.Spec Mobius.AccessYaml
 
-def c16Handlers : List (String × Handler) := []
+def genTables : Tables := ⟨Generated.accessConsts, Generated.unmarshalTable, Generated.flagsStruct, Generated.marshalTable⟩
+
+def intOf (s : String) : Int :=
+  if s.startsWith "n" then - (Int.ofNat (num (s.drop 1).toString)) else Int.ofNat (num s)
+
+def c16Handlers : List (String × Handler) := [
+  -- specname <bit> : the documented account-file name of privilege <bit> ("-" if undefined)
+  ("specname", fun (a : List String) => match a with
+    | [i] => match Spec.accessYamlNames.find? (fun e => e.2 == num i) with
+      | some e => e.1
+      | none => "-"
+    | _ => "bad-op"),
+  ("specbits", fun (_ : List String) => natsStr Spec.definedBits),
+  -- mask <hex8> : the property's reference result of save→load
+  ("mask", fun (a : List String) => match a with
+    | [b] => bitmapStr ((bitmapOf b).mask Spec.definedBits)
+    | _ => "bad-op"),
+  -- roundtrip <hex8> : load (save b) over the regenerated tables
+  ("roundtrip", fun (a : List String) => match a with
+    | [b] => bitmapStr (load genTables (save genTables (bitmapOf b)))
+    | _ => "bad-op"),
+  -- savekeys <hex8> : the keys written `true`, in file order
+  ("savekeys", fun (a : List String) => match a with
+    | [b] =>
+      let ks := ((save genTables (bitmapOf b)).filter (·.2)).map (·.1)
+      if ks.isEmpty then "-" else ",".intercalate ks
+    | _ => "bad-op"),
+  -- allkeys : every key written, in file order
+  ("allkeys", fun (_ : List String) => ",".intercalate ((save genTables AccessBitmap.zero).map (·.1))),
+  -- loadkeys k1 k2 … : load of a document whose listed keys are `true`
+  ("loadkeys", fun (a : List String) => bitmapStr (load genTables (a.map fun k => (k, true)))),
+  -- legacy v0 v1 … (n<k> = -k) : the legacy numeric-array branch
+  ("legacy", fun (a : List String) => match loadLegacy (a.map intOf) with
+    | some b => bitmapStr b
+    | none => "panic"),
+  ("wire", fun (a : List String) => match a with
+    | [b] => toHex (wire (bitmapOf b))
+    | _ => "bad-op"),
+  ("isset", fun (a : List String) => match a with
+    | [b, i] => toString ((bitmapOf b).isSet (num i))
+    | _ => "bad-op"),
+  ("setbit", fun (a : List String) => match a with
+    | [b, i] => bitmapStr ((bitmapOf b).set (num i))
+    | _ => "bad-op")
+]
 
 end Oracle
